@@ -587,6 +587,9 @@ fn c11_case(stream: &[u8], sched: &[(usize, Fault)], drv: Driver, eh: bool, out:
     if got.iter().any(|r| matches!(r, Some(Ev::Io(IoK::Eof, n)) if *n > 0)) {
         counts.inc("schedules where end of input finds pending bytes");
     }
+    if got.iter().any(|r| matches!(r, Some(Ev::Io(IoK::WouldBlock, _)) | Some(Ev::Io(IoK::Other, _))) || matches!(r, Some(Ev::Io(IoK::Eof, n)) if *n > 0)) {
+        counts.inc("schedules in which a fault became visible");
+    }
     if got != want {
         let class = if got.iter().any(|r| matches!(r, Some(Ev::Panic(_)))) { "C05 reader panics under a byte-source fault" } else { "C11 reader results under byte-source faults differ from the reference reader" };
         out.push(Viol {
@@ -723,10 +726,10 @@ pub fn run_c11(tier: Tier) -> ! {
     let _ = for_each_schedule;
     ctx.log(&format!("{} streams, <= {} deviations: outcomes {:?}", streams.len(), kmax, counts.0));
     counts.require(&["schedules with a visible WouldBlock", "schedules where an error discards pending bytes", "schedules where end of input finds pending bytes"]);
-    let n = counts.get("schedules run");
+    let n = counts.get("schedules run") + counts.get("schedules run (embedded-hal source)");
     let cov = J::obj()
         .set("evaluations", n)
-        .set("distinct_nontrivial", counts.get("schedules with a visible WouldBlock") + counts.get("schedules where an error discards pending bytes") + counts.get("schedules where end of input finds pending bytes"))
+        .set("distinct_nontrivial", counts.get("schedules in which a fault became visible"))
         .set("rule", "choice points = every call of io::Read::read made by the reader; default answer = next byte (Ok(0) at the end, persistently); deviations = WouldBlock, Interrupted, a burst of 300 Interrupted, Other, BrokenPipe, TimedOut, premature persistent end of input (io::Read source) and WouldBlock, Other (embedded-hal serial source, which has no end of input); every placement of up to k deviations (same position repeated included) on each stream, for the drivers next / read / next_nb / read_nb, run to completion and compared call by call with the reference reader; non-trivial = schedules in which a fault became visible or cost pending bytes")
         .set("samples", vec!["stream 1b1b1b1b0101010112340000 1b1b1b1b1a02.... driver next schedule [3:WouldBlock,9:Other]", "stream 55 1b + frame(000000) + 1b1b01 driver read_nb schedule [0:Interrupted,1:Interrupted]"])
         .set("states", n)
@@ -1296,7 +1299,7 @@ pub fn run_c10(tier: Tier) -> ! {
         .set("traces_validated_against_impl", n)
         .set("evaluations", n)
         .set("distinct_nontrivial", counts.get("stream layouts (file sequence x noise placement)"))
-        .set("rule", "file sequences of length <= k over a pool of 5 generated SML files + 1 non-SML payload, framed by the reference encoder, with every placement of 8 noise strings (incl. noise ending in 0x1b and partial start / end sequences) before, between and after; 5 sources x {Vec, ArrayBuf<256>, ArrayBuf<smallest instantiated capacity >= largest payload>, default 8 KiB}; per-call choice of DecodedBytes / File / Parser x read / next (/ *_nb): uniform and alternating for every layout, the full 6^(k+2) tree for three layouts per file sequence; oracle = the abstract files that were put in, and composition of transport::decode with the parsers by hand")
+        .set("rule", "file sequences of length <= k over a pool of 5 generated SML files + 1 non-SML payload, framed by the reference encoder, with every placement of 8 noise strings (incl. noise ending in 0x1b and partial start / end sequences) before, between and after; 7 sources (slice, iterator by value / by reference, io::Cursor, one-byte io::Read, chunked io::Read, io::Read interrupted before every second read) x {Vec, ArrayBuf<256>, ArrayBuf<smallest instantiated capacity >= largest payload>, default 8 KiB}; per-call choice of DecodedBytes / File / Parser x read / next (/ *_nb): uniform and alternating for every layout, the full 6^(k+2) tree for three layouts per file sequence; oracle = the abstract files that were put in, and composition of transport::decode with the parsers by hand")
         .set("samples", vec!["files [open, getlist(2)] noise [1b, 1b1b1b1b01, 55] choices [next File, read Parser, next Bytes, ...]"])
         .set("max_files", kmax)
         .set("outcomes", counts.to_json())
